@@ -5,6 +5,12 @@ V = os.path.dirname(os.path.dirname(os.path.abspath(__file__)))
 props = [json.loads(l) for l in open(os.path.join(V, "properties.jsonl"))]
 
 CLAIMED = {
+ "C04": dict(cat="model_checking", tech="trace validation: recorded (condition, buffer, match lists, verdict) cases judged by TLC against the TLA+ reference semantics Cond.tla",
+   text="Cond.tla is an evaluator of the whole condition language over explicit values incl. undefined (arithmetic, bitwise, shifts, comparisons with float promotion, string operators, $ # @ ! at in, of forms, for..of / for..in, intN readers, externals, rule references). Random well-typed trees are printed with minimal parentheses (so the parser's precedence and associativity are exercised), compiled and scanned; TLC evaluates Verdict(ast, env) for every case on the match lists the scan reported.",
+   ref="5 C04, 4.5", note="integer magnitudes < 2^22 (TLC integers are 32-bit); a loop over zero items is false (exec.c:747, manual silent). D15/D19 are known findings with spec-side signatures."),
+ "C12": dict(cat="model_checking", tech="TLC model checking of Fold.tla (compile-time folding = run-time value) + trace validation of twin programs against Cond.tla / TextMatch.tla / ReMatch.tla",
+   text="Fold.tla transcribes grammar.y's constant folding per operator and TLC checks FoldSound / CompileRejectsExactly over all operators x operand values x literal-or-external (the as-coded variants reproduce D2 and D3). Twins (literal / non-constant expression / external defined at compile, rule-set or scanner level in 7 deciding positions; C vs `C or filesize < 0`; normal vs fast mode; atom quality tables moving the atom of text and hex strings) are executed and each is judged by TLC against the same reference semantics.",
+   ref="5 C12, 4.5", note="equal references imply equal twins; fast-mode verdicts are judged on the match lists of the normal scan."),
  "C01": dict(cat="model_checking", tech="trace validation: every recorded (text string, modifiers, buffer, reported matches) case judged by TLC against the TLA+ reference semantics TextMatch.tla",
    text="TextMatch.tla defines, as TLA+ operators over byte sequences, the set of (length, xor key) with which a declaration may be reported at each offset (ascii/wide/nocase/fullword/xor ranges/base64 permutations/private). Random and boundary-planted cases are executed on the sanitizer-built library and TLC evaluates ObsOK (ascending, nothing missed, nothing extra, true length/key) for every case.",
    ref="5 C01, 4.2", note="states = one per judged case (functional oracle: the spec has no interleaving to explore); fullword on xor/wide follows the code where the manual is silent; the atom-pipeline model (Atoms/Hits/Verify) is not yet part of the spec."),
